@@ -728,15 +728,21 @@ void ApplySnapshot(World& w, const JV& snap) {
 JV RunInChild(World& w, const JV& step, int timeout_s) {
   int fds[2];
   if (pipe(fds) != 0) { JV e = JV::Obj(); e.set("harness_error", "pipe"); return e; }
-  char errpath[] = "/dev/shm/nsim-err-XXXXXX";
+  // scratch names carry the tag of the check process that owns this worker, so that a check only ever sweeps its own
+  const char* tag = getenv("NSIM_TAG");
+  std::string tagged = std::string("/dev/shm/nsim-") + (tag ? tag : "0") + "-";
+  std::string errtmpl = tagged + "err-XXXXXX";
+  std::vector<char> errpath_v(errtmpl.begin(), errtmpl.end()); errpath_v.push_back(0);
+  char* errpath = errpath_v.data();
   int errfd = mkstemp(errpath);
   fflush(stdout);
   pid_t pid = fork();
   if (pid == 0) {
     close(fds[0]);
     alarm(timeout_s);
-    char tmpl[] = "/dev/shm/nsim-XXXXXX";
-    char* scratch = mkdtemp(tmpl);
+    std::string dtmpl = tagged + "XXXXXX";
+    std::vector<char> tmpl(dtmpl.begin(), dtmpl.end()); tmpl.push_back(0);
+    char* scratch = mkdtemp(tmpl.data());
     if (!scratch || chdir(scratch) != 0) _exit(97);
     // ninja's stdout -> file in scratch (captured), stderr -> errfd
     int outfd = open("stdout.txt", O_CREAT | O_WRONLY | O_TRUNC, 0666);
